@@ -364,9 +364,12 @@ def httpPre : List Char := ['h', 't', 't', 'p', ':', '/', '/']
 def httpsPre : List Char := ['h', 't', 't', 'p', 's', ':', '/', '/']
 def slashSlash : List Char := ['/', '/']
 
-/-- `is_plain_css_import` as written. -/
+/-- `str::len`: the length in UTF-8 bytes -/
+def utf8Len (s : List Char) : Nat := (s.map Char.utf8Size).sum
+
+/-- `is_plain_css_import` as written (`url.len() < 5` counts bytes). -/
 def isPlainCssImport (url : List Char) : Bool :=
-  if url.length < 5 then false
+  if utf8Len url < 5 then false
   else
     let l := lower url
     endsWith l dotCss || startsWith l httpPre || startsWith l httpsPre || startsWith l slashSlash
@@ -539,6 +542,390 @@ def chainsInfo (af : AsFound) (fs : Fs) (lps : List Path) (importer : Path) :
     chainInfo af fs lps importer c ++
       (if (chain af fs lps importer c).any (fun x => x.1 == .cantFind) then [] else chainsInfo af fs lps importer cs)
 
+/-! ### `std::path` (unix) as `find_import` uses it — the raw spelling of a path is kept
+
+  A path *string* is carried as the list of its `/`-separated segments, empty ones included:
+  `a//b` = `[a, [], b]`, `a/` = `[a, []]`, `/a` = `[[], a]`, `/` = `[[], []]`, `./a` = `[., a]`; the
+  empty string is `[]` (`[[]]` is not used).  The functions below are written from
+  library/std/src/path.rs (`Components::next_back`, `as_path`/`trim_right`, `Path::parent`,
+  `file_name`, `extension`, `PathBuf::push`, `set_extension`) for unix paths, and from visitor.rs
+  `add_extension` (line 53: plain string append).  On lists without empty / `.` segments they are the
+  component-list operations of the model above (theorem `C13_raw_agrees_on_plain_spellings`). -/
+
+/-- a segment `Components` skips inside the body: empty (`//`, trailing `/`) or `.` -/
+def isBlank (c : Comp) : Bool := c.isEmpty || c == dot
+
+/-- the string starts with `/` -/
+def hasRootR : Path → Bool
+  | [] :: _ :: _ => true
+  | _ => false
+
+/-- `Components::include_cur_dir`: a leading `.` segment of a relative path is a component -/
+def hasCurDirR (p : Path) : Bool := !hasRootR p && p.head? == some dot
+
+def prefixLenR (p : Path) : Nat := if hasRootR p || hasCurDirR p then 1 else 0
+
+/-- the segments after the root / leading `.` -/
+def bodyR (p : Path) : List Comp := p.drop (prefixLenR p)
+
+/-- drop the trailing segments that are not components (`trim_right`) -/
+def stripBlank (l : List Comp) : List Comp := (l.reverse.dropWhile isBlank).reverse
+
+/-- the string of `Components::as_path` once the body has been cut down to `b` -/
+def rebuildR (p : Path) (b : List Comp) : Path :=
+  if hasRootR p then (if b.isEmpty then [[], []] else [] :: b)
+  else if hasCurDirR p then dot :: b
+  else b
+
+/-- `next_back` inside the body: the segments before the last component, and that component -/
+def lastRealR (p : Path) : Option (List Comp × Comp) :=
+  let b := stripBlank (bodyR p)
+  match b.getLast? with
+  | some c => some (b.dropLast, c)
+  | none => none
+
+/-- `Path::parent` -/
+def parentR (p : Path) : Option Path :=
+  match lastRealR p with
+  | some (b', _) => some (rebuildR p (stripBlank b'))
+  | none => if hasCurDirR p then some [] else none
+
+/-- `Path::file_name`: the last component unless it is `..` -/
+def fileNameR (p : Path) : Option Comp :=
+  match lastRealR p with
+  | some (_, c) => if c == dotdot then none else some c
+  | none => none
+
+/-- `Path::join` / `PathBuf::push` -/
+def joinR (a b : Path) : Path :=
+  if hasRootR b then b
+  else if a.isEmpty then b
+  else
+    let b' := if b.isEmpty then [[]] else b          -- pushing "" only adds the separator
+    if a.getLast? == some [] then a.dropLast ++ b' else a ++ b'
+
+/-- `Path::extension` -/
+def extensionR (p : Path) : Option Comp :=
+  (fileNameR p).bind (fun n => (stemExt n).map (·.2))
+
+/-- `Path::with_extension` (`set_extension`): the string is cut after the file stem -/
+def withExtensionR (p : Path) (ext : Comp) : Path :=
+  match lastRealR p with
+  | some (b', n) =>
+    if n == dotdot then p
+    else p.take (prefixLenR p) ++ b' ++ [((stemExt n).map (·.1)).getD n ++ '.' :: ext]
+  | none => p
+
+/-- `add_extension` (visitor.rs:53): `.ext` appended to the string -/
+def addExtR (p : Path) (ext : Comp) : Path :=
+  match p.getLast? with
+  | some l => p.dropLast ++ [l ++ '.' :: ext]
+  | none => ['.' :: ext]
+
+/-- the components (`Path`'s `Eq`/`Hash`/`Ord`, `starts_with` compare these): root or leading `.`
+    kept, empty and `.` segments of the body dropped, `..` kept -/
+def normR (p : Path) : Path := p.take (prefixLenR p) ++ (bodyR p).filter (fun c => !isBlank c)
+
+/-! ### `find_import` on raw spellings (visitor.rs:809–898, the code as it stands) -/
+
+/-- `try_path!` (visitor.rs:819) -/
+def tryPathR (p : Path) : List Path :=
+  [p, joinR ((parentR p).getD []) [('_' :: (fileNameR p).getD dotdot)]]
+
+def importDot : Comp := importWord ++ ['.']
+
+def extGroupsR (p : Path) (pre : Comp) : List (List Path) :=
+  [tryPathR (addExtR p (pre ++ sassExt)) ++ tryPathR (addExtR p (pre ++ scssExt)),
+   tryPathR (addExtR p (pre ++ cssExt))]
+
+/-- `try_path_with_extensions!` (visitor.rs:866) -/
+def withExtensionsR (imp : Bool) (p : Path) : List (List Path) :=
+  (if imp then extGroupsR p importDot else []) ++ extGroupsR p []
+
+/-- `try_explicit!` (visitor.rs:847) -/
+def explicitR (imp : Bool) (ext : Comp) (p : Path) : List (List Path) :=
+  (if imp then [tryPathR (withExtensionR p (importDot ++ ext))] else []) ++ [tryPathR p]
+
+/-- The locations `find_import` searches, in order: `cur` is `current_import_path` (the importing
+    file), `url` the URL as written. -/
+def locsR (cur url : Path) (lps : List Path) (forImport : Bool) : List Loc :=
+  let rel := if hasRootR url then url else joinR ((parentR cur).getD []) url
+  let roots := rel :: lps.map (fun lp => joinR lp url)
+  match (extensionR rel).filter isSourceExt with
+  | some ext => roots.map (fun p => ⟨explicitR forImport ext p, none⟩)
+  | none =>
+    roots.map (fun p =>
+      ⟨withExtensionsR forImport p, some (p, withExtensionsR forImport (joinR p [indexName]))⟩)
+
+def candidatesR (cur url : Path) (lps : List Path) (forImport : Bool) : List Probe :=
+  (locsR cur url lps forImport).flatMap Loc.probes
+
+def fileCandidatesR (cur url : Path) (lps : List Path) (forImport : Bool) : List Path :=
+  (locsR cur url lps forImport).flatMap Loc.filePaths
+
+def resolveR (fs : Fs) (cur url : Path) (lps : List Path) (forImport : Bool) : Option Path :=
+  (resolveLocs fs (locsR cur url lps forImport)).1
+
+def traceR (fs : Fs) (cur url : Path) (lps : List Path) (forImport : Bool) : List Probe :=
+  (resolveLocs fs (locsR cur url lps forImport)).2
+
+def syntaxForR (p : Path) : Syntax :=
+  match extensionR p with
+  | some e => if lower e == cssExt then .css else if lower e == sassExt then .sass else .scss
+  | none => .scss
+
+/-- `import_like_node` (visitor.rs:913) on raw spellings; the cache is keyed by `PathBuf`, i.e. by
+    components (`normR`). -/
+def loadCR (fs : Fs) (lps : List Path) (st : Cache) (cur url : Path) (forImport : Bool) :
+    (LoadResult × List Call) × Cache :=
+  let r := resolveLocs fs (locsR cur url lps forImport)
+  match r.1 with
+  | some p =>
+    let k := normR p
+    if st.cached.contains k then ((.loaded p (syntaxForR p), r.2.map .probe), st)
+    else ((.loaded p (syntaxForR p), r.2.map .probe ++ [.read p]),
+          if st.seen.contains k then { st with cached := k :: st.cached } else { st with seen := k :: st.seen })
+  | none => ((.cantFind, r.2.map .probe), st)
+
+def loadR (fs : Fs) (cur url : Path) (lps : List Path) (forImport : Bool) : LoadResult × List Call :=
+  (loadCR fs lps .empty cur url forImport).1
+
+def chainCR (fs : Fs) (lps : List Path) :
+    Cache → Path → List (Bool × Path) → List (LoadResult × List Call) × Cache
+  | st, _, [] => ([], st)
+  | st, cur, (fi, url) :: rest =>
+    let r := loadCR fs lps st cur url fi
+    match r.1.1 with
+    | .loaded p syn =>
+      if syn = .css then ([r.1], r.2)
+      else
+        let rs := chainCR fs lps r.2 p rest
+        (r.1 :: rs.1, rs.2)
+    | .cantFind => ([r.1], r.2)
+
+def chainsR (fs : Fs) (lps : List Path) (cur : Path) :
+    Cache → List (List (Bool × Path)) → List (LoadResult × List Call)
+  | _, [] => []
+  | st, c :: cs =>
+    let r := chainCR fs lps st cur c
+    r.1 ++ (if r.1.any (fun x => x.1 == .cantFind) then [] else chainsR fs lps cur r.2 cs)
+
+/-- The runner's in-memory Fs (runner/src/main.rs `MemFs`): a `BTreeMap<PathBuf, _>`, so lookups
+    compare components; a directory is a proper component-prefix of a file. -/
+def fsOfR (files : List Path) : Fs :=
+  let keys := files.map normR
+  { isFile := fun p => keys.contains (normR p),
+    isDir := fun p => let k := normR p; keys.any (fun f => f != k && k.isPrefixOf f) }
+
+/-- P̂ for one load on raw spellings: the outcome is the first existing candidate of the ordered
+    candidate list, every existence test is on a candidate, at most one read and only of the result. -/
+def checkLoadR (fs : Fs) (cur url : Path) (lps : List Path) (forImport : Bool)
+    (res : Option Path) (calls : List Call) : Bool :=
+  let cands := candidatesR cur url lps forImport
+  decide (res = resolveR fs cur url lps forImport) &&
+  calls.all (fun c =>
+    match c with
+    | .probe p => cands.contains p
+    | .read p => decide (res = some p)) &&
+  decide ((calls.filter (fun c => match c with | .read _ => true | _ => false)).length
+            ≤ (if res.isSome then 1 else 0))
+
+/-- Every spelling of the same file: root kept, every empty / `.` segment dropped (also a leading
+    `.`, which `normR` keeps). -/
+def normFull (p : Path) : Path := (if hasRootR p then [[]] else []) ++ p.filter (fun c => !isBlank c)
+
+def Probe.mapPath (f : Path → Path) : Probe → Probe
+  | .isFile p => .isFile (f p)
+  | .isDir p => .isDir (f p)
+
+/-- "Only candidate paths of that search", for any spelling: each path handed to the Fs names
+    (after dropping empty and `.` segments) a candidate of the documented search for the URL spelled
+    without them. -/
+def probesWithinSpec (cur url : Path) (lps : List Path) (forImport : Bool) (calls : List Call) : Bool :=
+  let cands := candidates .spec (normFull cur) (normFull url) (lps.map normFull) forImport
+  calls.all (fun c =>
+    match c with
+    | .probe p => cands.contains (p.mapPath normFull)
+    | .read p => cands.contains (.isFile (normFull p)))
+
+/-- the guard of `probesWithinSpec`: a relative URL whose last segment is a name -/
+def specComparable (cur url : Path) : Bool :=
+  !hasRootR url && urlOk (normFull url) && (url.getLast?.map (fun c => !isBlank c)).getD false &&
+  !(normFull cur).isEmpty && (cur.getLast?.map (fun c => !isBlank c && c != dotdot)).getD false
+
+/-! ### parser level: one `@import` argument (parse/stylesheet.rs:864 `parse_import_argument`)
+
+  Modelled grammar: a quoted string without escapes or line breaks (base.rs:290 `parse_string`),
+  or `url(` + unquoted contents + `)`; optional white space; optional modifiers, recognised by
+  their first characters (stylesheet.rs:735 `try_import_modifiers`, :1997
+  `looking_at_interpolated_identifier`) and running to the end of the statement.  Anything else
+  (escapes, comments, interpolation inside `url()`) answers `none`. -/
+
+def isWs (c : Char) : Bool := c == ' ' || c == '\t' || c == '\n'     -- base.rs:12
+
+def skipWs : List Char → List Char
+  | [] => []
+  | c :: cs => if isWs c then skipWs cs else c :: cs
+
+/-- chars.rs:15 `is_name_start` -/
+def isNameStart (c : Char) : Bool := c == '_' || c.isAlpha || c.toNat ≥ 0x80
+
+/-- stylesheet.rs:1997 -/
+def lookingAtInterpIdent : List Char → Bool
+  | [] => false
+  | '\\' :: _ => true
+  | '#' :: rest => rest.head? == some '{'
+  | '-' :: rest =>
+    (match rest with
+     | [] => false
+     | '#' :: r2 => r2.head? == some '{'
+     | '\\' :: _ => true
+     | '-' :: _ => true
+     | c :: _ => isNameStart c)
+  | c :: _ => isNameStart c
+
+/-- `try_import_modifiers` returns `Some(..)` exactly when (stylesheet.rs:735) -/
+def hasModifiersAt (rest : List Char) : Bool := lookingAtInterpIdent rest || rest.head? == some '('
+
+/-- `parse_string` after the opening quote `q`: the text up to the matching quote and what follows -/
+def scanString (q : Char) : List Char → Option (List Char × List Char)
+  | [] => none
+  | c :: cs =>
+    if c == q then some ([], cs)
+    else if c == '\n' || c == '\r' || c == '\\' then none
+    else (scanString q cs).map (fun (s, r) => (c :: s, r))
+
+/-- characters `try_url_contents` (stylesheet.rs:814) copies as they are -/
+def urlChar (c : Char) : Bool :=
+  (c == '!' || c == '%' || c == '&' || ('*' ≤ c && c ≤ '~') || c.toNat ≥ 0x80) && c != '\\'
+
+def scanUrlContents : List Char → Option (List Char)
+  | [] => none
+  | c :: cs => if c == ')' then some cs else if urlChar c then scanUrlContents cs else none
+
+inductive ArgKind where
+  | plain                       -- AstImport::Plain → `visit_static_import_rule`: emitted, nothing loaded
+  | sass (url : List Char)      -- AstImport::Sass → `visit_dynamic_import_rule`: looked up and loaded
+  deriving DecidableEq, Repr, Inhabited
+
+/-- One argument: its kind and the text after it (white space skipped; `[]` when modifiers took the
+    rest of the statement). -/
+def parseImportArg (t : List Char) : Option (ArgKind × List Char) :=
+  match t with
+  | [] => none
+  | c :: cs =>
+    if c == 'u' || c == 'U' then
+      -- `parse_dynamic_url`: every successful parse is AstImport::Plain
+      match cs with
+      | r :: l :: '(' :: rest =>
+        if lowerChar r == 'r' && lowerChar l == 'l' then
+          match scanUrlContents rest with
+          | some after =>
+            let after := skipWs after
+            if after.head? == some '/' then none
+            else if hasModifiersAt after then some (.plain, []) else some (.plain, after)
+          | none => none
+        else none
+      | _ => none
+    else if c == '"' || c == '\'' then
+      match scanString c cs with
+      | none => none
+      | some (url, rest) =>
+        let rest := skipWs rest
+        if rest.head? == some '/' then none            -- a comment may follow: outside the grammar
+        else if hasModifiersAt rest then some (.plain, [])
+        else if isPlainCssImport url then some (.plain, rest)
+        else some (.sass url, rest)
+    else none
+
+/-- `parse_import_rule` (stylesheet.rs:896): arguments separated by commas. -/
+def parseImportArgs : Nat → List Char → Option (List ArgKind)
+  | 0, _ => none
+  | fuel + 1, t =>
+    match parseImportArg (skipWs t) with
+    | none => none
+    | some (k, rest) =>
+      match rest with
+      | [] => some [k]
+      | ',' :: more => (parseImportArgs fuel more).map (k :: ·)
+      | _ => none
+
+/-! ### driver helpers for the raw model -/
+
+/-- a path string kept as written: `-` is the empty string -/
+def rawOfStr (s : String) : Option Path :=
+  if s == "-" then some []
+  else if s.isEmpty || !(s.toList.all safeChar) then none
+  else some ((s.splitOn "/").map String.toList)
+
+def rawStr (p : Path) : String :=
+  if p.isEmpty then "-" else "/".intercalate (p.map String.ofList)
+
+def rawListOfStr (s : String) : Option (List Path) :=
+  if s == "-" then some [] else (s.splitOn ",").mapM rawOfStr
+
+def stepOfStrR (s : String) : Option (Bool × Path) :=
+  match s.splitOn ":" with
+  | [k, u] =>
+    match rawOfStr u with
+    | some u =>
+      if u.isEmpty then none
+      else if k == "i" then some (true, u) else if k == "u" then some (false, u) else none
+    | none => none
+  | _ => none
+
+def planOfStrR (s : String) : Option (List (List (Bool × Path))) :=
+  (s.splitOn "+").mapM (fun c => if c == "-" then some [] else (c.splitOn ",").mapM stepOfStrR)
+
+def probeStrR : Probe → String
+  | .isFile p => "f:" ++ rawStr p
+  | .isDir p => "d:" ++ rawStr p
+
+def callStrR : Call → String
+  | .probe p => probeStrR p
+  | .read p => "r:" ++ rawStr p
+
+def callsStrR (cs : List Call) : String :=
+  if cs.isEmpty then "-" else ",".intercalate (cs.map callStrR)
+
+def callOfStrR (s : String) : Option Call :=
+  match s.splitOn ":" with
+  | [k, p] =>
+    match rawOfStr p with
+    | some p =>
+      if k == "f" then some (.probe (.isFile p)) else if k == "d" then some (.probe (.isDir p))
+      else if k == "r" then some (.read p) else none
+    | none => none
+  | _ => none
+
+def callsOfStrR (s : String) : Option (List Call) :=
+  if s == "-" then some [] else (s.splitOn ",").mapM callOfStrR
+
+def resultStrR : LoadResult → String
+  | .loaded p syn => "L:" ++ rawStr p ++ ":" ++ synStr syn
+  | .cantFind => "E"
+
+/-- per step along the chain the raw model takes: existing file candidates, number of candidates -/
+def chainInfoR (fs : Fs) (lps : List Path) : Path → List (Bool × Path) → List String
+  | _, [] => []
+  | cur, (fi, url) :: rest =>
+    let r := loadR fs cur url lps fi
+    let fc := (fileCandidatesR cur url lps fi).eraseDups
+    let here := "raw:" ++ toString (fc.filter fs.isFile).length ++ ":" ++ toString fc.length
+    here :: (match r.1 with
+             | .loaded p syn => if syn = .css then [] else chainInfoR fs lps p rest
+             | .cantFind => [])
+
+def chainsInfoR (fs : Fs) (lps : List Path) (cur : Path) : List (List (Bool × Path)) → List String
+  | [] => []
+  | c :: cs =>
+    chainInfoR fs lps cur c ++
+      (if (chainCR fs lps .empty cur c).1.any (fun x => x.1 == .cantFind) then [] else chainsInfoR fs lps cur cs)
+
+def argStr : ArgKind → String
+  | .plain => "P"
+  | .sass u => "S:" ++ hexEncode (String.ofList u)
+
 def handle : List String → String
   -- chain <af> <importer> <lps> <files> <dirs> <steps>[+<steps>…]
   --   → ok <result>|<calls> ; …  # <doc>:<existing>:<ncands> ; …
@@ -594,6 +981,45 @@ def handle : List String → String
       "ok " ++ (match k with | .plainCss => "plain" | .sass => "sass") ++
         " code=" ++ boolStr (isPlainCssImport u.toList) ++ " doc=" ++ boolStr (documentedPlainUrl u.toList)
     | _, _, _ => "bad-op"
+  -- chainr <importer> <lps> <files> <steps>[+<steps>…]   (raw spellings, the code as it stands)
+  --   → ok <result>|<calls> ; …  # raw:<existing>:<ncands> ; …
+  | ["chainr", importer, lps, files, steps] =>
+    match rawOfStr importer, rawListOfStr lps, rawListOfStr files, planOfStrR steps with
+    | some cur, some lps, some files, some plan =>
+      if cur.isEmpty then "unsupported" else
+      let fs := fsOfR files
+      let rs := chainsR fs lps cur .empty plan
+      "ok " ++ ";".intercalate (rs.map (fun r => resultStrR r.1 ++ "|" ++ callsStrR r.2)) ++
+        " # " ++ ";".intercalate (chainsInfoR fs lps cur plan)
+    | _, _, _, _ => "unsupported"
+  -- checkr <importer> <lps> <files> <step> <res: L:<path> | E> <calls>
+  --   → ok holds|fails spec=holds|fails|na     (checkLoadR and probesWithinSpec on an observation)
+  | ["checkr", importer, lps, files, step, res, calls] =>
+    match rawOfStr importer, rawListOfStr lps, rawListOfStr files, stepOfStrR step, callsOfStrR calls with
+    | some cur, some lps, some files, some (fi, url), some calls =>
+      if cur.isEmpty then "unsupported" else
+      let fs := fsOfR files
+      let res? : Option (Option Path) :=
+        if res == "E" then some none
+        else match res.splitOn ":" with
+          | ["L", p] => (rawOfStr p).map some
+          | _ => none
+      match res? with
+      | none => "bad-op"
+      | some r =>
+        "ok " ++ (if checkLoadR fs cur url lps fi r calls then "holds" else
+                    "fails want=" ++ (match resolveR fs cur url lps fi with | some p => rawStr p | none => "E")) ++
+          " spec=" ++ (if !specComparable cur url then "na"
+                       else if probesWithinSpec cur url lps fi calls then "holds" else "fails")
+    | _, _, _, _, _ => "unsupported"
+  -- args <hex text of the argument list of one @import rule>  → ok P|S:<hex url>|…
+  | ["args", t] =>
+    match hexDecode t with
+    | some t =>
+      (match parseImportArgs (t.length + 1) t.toList with
+       | some ks => "ok " ++ "|".intercalate (ks.map argStr)
+       | none => "unsupported")
+    | none => "bad-op"
   -- syntax <path>
   | ["syntax", p] =>
     match pathOfStr true p with
